@@ -296,9 +296,10 @@ int vh_key_gen(vh_key_t *k, const char *spec, vh_rng_t *r)
 {
 	memset(k, 0, sizeof(*k));
 	snprintf(k->name, sizeof(k->name), "%s", spec);
-	if (!strncmp(spec, "oct:", 4)) {
+	if (!strncmp(spec, "oct:", 4) || !strncmp(spec, "octpad:", 7) || !strncmp(spec, "octjunk:", 8)) {
 		k->kind = VH_K_OCT;
-		k->octlen = (size_t)atoi(spec + 4);
+		k->padmode = spec[3] == ':' ? 0 : spec[3] == 'p' ? 1 : 2;
+		k->octlen = (size_t)atoi(strchr(spec, ':') + 1);
 		k->oct = malloc(k->octlen + 1);
 		vh_rand_bytes(r, k->oct, k->octlen);
 		k->bits = (int)k->octlen * 8;
@@ -388,7 +389,16 @@ char *vh_key_jwk(const vh_key_t *k, int priv, const char *alg, const char *kid, 
 	switch (k->kind) {
 	case VH_K_OCT:
 		sb_add(&b, "\"oct\"");
-		sb_member_b64(&b, "k", k->oct, k->octlen);
+		if (k->padmode && k->octlen % 3) {
+			/* the same key bytes, spelled with '=' padding (and, mode 2, further characters after it): whatever a reader makes of
+			 * the spelling, the key has octlen bytes */
+			char *e = vh_b64u_enc_dup(k->oct, k->octlen);
+			sb_add(&b, ",\"k\":\""); sb_add(&b, e); sb_add(&b, k->octlen % 3 == 1 ? "==" : "=");
+			if (k->padmode == 2) sb_add(&b, "QUFBQUFBQUFBQUFBQUFBQUFBQUFBQUFBQUFBQUFBQUFBQUFBQUFBQUFBQUFBQUFBQUFBQUFBQUFBQUFB");
+			sb_add(&b, "\"");
+			free(e);
+		} else
+			sb_member_b64(&b, "k", k->oct, k->octlen);
 		break;
 	case VH_K_RSA: case VH_K_RSAPSS:
 		sb_add(&b, "\"RSA\"");
